@@ -448,6 +448,13 @@ class BooleanExpression(FilterExpression):
             expr = f"!{operand}"
             return f"({expr})" if parent_precedence > PRECEDENCE_PREFIX else expr
 
+        if (
+            isinstance(expression, InfixExpression)
+            and parent_precedence >= PRECEDENCE_PREFIX
+        ):
+            # A comparison binds weaker than `!`. Keep its parentheses.
+            return f"({expression})"
+
         return str(expression)
 
     def evaluate(self, context: FilterContext) -> bool:
